@@ -488,7 +488,8 @@ func Run(args []string) int {
 	fs := flag.NewFlagSet("c16", flag.ContinueOnError)
 	seed := fs.Uint64("seed", 1, "seed")
 	n := fs.Int("n", 100, "number of generated cases")
-	mode := fs.String("mode", "pipeline", "pipeline | loop")
+	mode := fs.String("mode", "pipeline", "pipeline | loop | frag")
+	only := fs.Int("only", -1, "mode frag: emit only the case with this id (with its objects)")
 	replay := fs.String("replay", "", "file with a JSON array of objects (pipeline.EncodeObjects) to run as a single case")
 	dump := fs.Int("dump", -1, "print the objects of case <id> (EncodeObjects) instead of running")
 	if err := fs.Parse(args); err != nil {
@@ -500,6 +501,9 @@ func Run(args []string) int {
 	enc.SetEscapeHTML(false)
 	if *mode == "loop" {
 		return runLoop(rng.New(*seed), *n, w)
+	}
+	if *mode == "frag" {
+		return runFrag(rng.New(*seed), *n, *only, w)
 	}
 	if *replay != "" {
 		data, err := os.ReadFile(*replay)
